@@ -56,6 +56,26 @@ def run(ctx, factor):
             else:
                 mdoc, files = {"pattern": [call, "ret"]}, [{"macros": order}]
             forms = ["parameterised-call-as-argument-of-a-call"]
+        if it % 9 == 2:
+            # a macro LIBRARY: definitions that the rule does not use (and whose bodies refer to other unused definitions) play
+            # no part; and a string macro whose body refers to a later string macro, used inside a longer name
+            sh, ro, n = g.pick(["shl", "sar", "shr"]), g.pick(["rol", "ror"]), g.pick(["ax", "bx", "cx"])
+            lib = [{"name": "@shift_or_rot", "pattern": [{"$or": ["@any_shift", "@any_rot"]}]},
+                   {"name": "@any_shift", "pattern": sh}, {"name": "@any_rot", "pattern": ro},
+                   {"name": "@wide", "pattern": "r@n"}, {"name": "@n", "pattern": n}]
+            kind = g.int(0, 2)
+            if kind == 0:
+                use, inl = ["@any_shift", {"mov": ["%@wide", "rbx"]}], [sh, {"mov": ["%r" + n, "rbx"]}]
+            elif kind == 1:
+                use, inl = ["@any_shift", "ret"], [sh, "ret"]
+            else:
+                use, inl = [{"add": ["%@wide"]}, "@any_rot"], [{"add": ["%r" + n]}, ro]
+            doc = {"pattern": inl}
+            if g.chance(0.5):
+                mdoc, files = {"pattern": use}, [{"macros": lib}]
+            else:
+                mdoc, files = {"macros": lib, "pattern": use}, []
+            forms = ["macro-library-with-unused-definitions"]
         if not forms:
             continue
         # a second use of one of the macros, same arguments (uses must not influence each other)
